@@ -1,7 +1,6 @@
 /-
 Driver for C05.  Request line (fields separated by single spaces, `E=` is last):
-  LEX=<0|1> H=<heap> STEPS=<step>|<step>|... E=<expr tokens separated by spaces>
-LEX  : 1 = the live tree has F05c repaired (callee sees its closure only); chosen by the harness's probe
+  H=<heap> STEPS=<step>|<step>|... E=<expr tokens separated by spaces>
 heap : `loc:tz;loc:tz;...` (tz `n` = none), `_` = empty           (caller's xs:dateTime objects)
 step : `<tz>#<name>:<val>,<name>:<val>,...`  (`_` = no variables); val = items joined by `.`:
        `i<int>` integer, `r<k>` reference to heap object k, `e` the empty sequence
@@ -11,7 +10,7 @@ expr : prefix code —  I n | V x | E | S a b | P e | A a b (+) | M a b (-) | Q 
        | J e (adjust-dateTime-to-timezone, 1 argument) | J2 e z (2 arguments)
 Answer: one record per step joined by `|`:
   m=<model result> s=<spec result> env=<1 if the model hands back the caller's dict unchanged>
-  heap=<caller's objects after the step> ws=<1 if WS lex true (dom ρ) e, i.e. outside trigger F05c>
+  heap=<caller's objects after the step>
   p=<result of the model of the PINNED tree (Quirks.pinned) in the same history>
 results: items joined by `,` — i<int> b<0|1> d<loc>@<tz|n> u<seconds> f<arity> ; `()` empty; ERR:<kind>
 -/
@@ -120,8 +119,7 @@ def answer (line : String) : String :=
     | none => "bad-steps"
     | some steps =>
       let etoks := (((line.splitOn " E=").getD 1 "").splitOn " ").filter (· ≠ "")
-      let lex := field fs "LEX" == "1"
-      let q : Quirks := ⟨true, true, true, lex⟩
+      let q : Quirks := Quirks.lexical      -- the reference tree: all repairs in
       match parseE etoks with
       | some (e, []) =>
         let pinnedOuts := (runHistory .pinned fuel e steps h0).1
@@ -133,8 +131,7 @@ def answer (line : String) : String :=
             | .ok (v, ρ', h') => (Out.ok (obs h' v), envSame h' ρ' s.ρ, h')
             | .error (er, ρ', h') => (Out.err er, envSame h' ρ' s.ρ, h')
           let sp := semOut s.tz h0 fuel e s.ρ
-          let ws := WS lex true (dom s.ρ) e
-          (h', recs ++ [s!"m={showOut m} s={showOut sp} env={if envok then 1 else 0} heap={showHeap h'} ws={if ws then 1 else 0} p={showOut pout}"]))
+          (h', recs ++ [s!"m={showOut m} s={showOut sp} env={if envok then 1 else 0} heap={showHeap h'} p={showOut pout}"]))
           (h0, [])
         "|".intercalate recs
       | _ => "bad-expr"
